@@ -11,9 +11,11 @@ mod c08;
 mod c10;
 mod tok;
 mod c11;
+mod c12;
 mod c13;
 mod c14;
 mod c17;
+mod c19;
 mod gen;
 mod iv;
 
@@ -104,6 +106,18 @@ fn main() {
         print!("{}", c.input);
         std::process::exit(0);
     }
+    if prop == "probe-from" {
+        use rasn_compiler::prelude::*;
+        let src = std::fs::read_to_string(&args[2]).unwrap();
+        let mut c = RasnConfig::default();
+        c.generate_from_impls = true;
+        let r = Compiler::<RasnBackend, _>::new_with_config(c).add_asn_literal(src).compile_to_string();
+        match r {
+            Ok(r) => println!("{}", r.generated),
+            Err(e) => println!("ERR: {e}"),
+        }
+        std::process::exit(0);
+    }
     if prop == "probe" {
         use rasn_compiler::prelude::*;
         let src = std::fs::read_to_string(&args[2]).unwrap();
@@ -167,9 +181,11 @@ fn main() {
         "C08" => c08::run(&ctx),
         "C10" => c10::run(&ctx),
         "C11" => c11::run(&ctx),
+        "C12" => c12::run(&ctx),
         "C13" => c13::run(&ctx),
         "C14" => c14::run(&ctx),
         "C17" => c17::run(&ctx),
+        "C19" => c19::run(&ctx),
         _ => {
             eprintln!("unknown property {prop}");
             std::process::exit(2)
